@@ -1,6 +1,7 @@
 INIT Init
 NEXT Next
-CONSTANTS Stride = 1
+CONSTANTS Api = "all"
+ Stride = 1
  Offset = 0
  AlgKey = "canon"
  PsyKey = "canon"
